@@ -6,7 +6,7 @@ import random
 import re
 from collections import defaultdict, deque
 
-from common import (SPEC, WORK, ToolError, build_harness, kf_for, read_ndjson, require_mc_ok, run, seed,
+from common import (SpecViolation, SPEC, WORK, ToolError, build_harness, kf_for, read_ndjson, require_mc_ok, run, seed,
                     tlc_judge, tlc_mc, workdir, write_ndjson)
 
 ALL_OPS = ["set", "delete", "append", "range", "override"]      # trait level; "init" exists only on the RLN surface
@@ -57,7 +57,36 @@ def model_check(tier, wd, out):
         out.notes.append(f"TLC Tree.tla Depth={r['depth']} Vals={r['vals']} MaxBatch={r['max_batch']} MaxRem={r['max_rem']}: "
                          f"{res['distinct']} distinct states, {res['generated']} transitions, invariants {INVS} hold, "
                          f"every action taken ({res['actions']})")
+    if out.prop in ("C06", "C08"):
+        tot_states += refinement_check(tier, wd, out)
     out.add(states=tot_states, transitions=tot_trans)
+
+
+def refinement_check(tier, wd, out):
+    """TreeImpl.tla: the node-level algorithms of the two in-memory backends (dense array / sparse map re-hash passes,
+    transcribed from the code) refine the ideal tree; the two known faulty re-hash passes must be refuted by TLC."""
+    def cfg(name, variant, d, vals, mb, mr):
+        p = os.path.join(wd, name + ".cfg")
+        with open(p, "w") as f:
+            f.write(f"SPECIFICATION Spec\nCONSTANTS\n  Depth = {d}\n  Vals = {{{', '.join(map(str, vals))}}}\n  MaxBatch = {mb}\n  MaxRem = {mr}\n"
+                    f"  Variant = \"{variant}\"\nINVARIANTS Consistent MarkOK ResultOK\nCHECK_DEADLOCK FALSE\n")
+        return p
+    quick = tier == "quick"
+    runs = [(2, [0, 1], 2, 1)] if quick else [(2, [0, 1, 2], 2, 2), (3, [0, 1], 2, 1)]
+    states = 0
+    for d, vals, mb, mr in runs:
+        res = tlc_mc("TreeImpl", cfg(f"MC_TreeImpl_d{d}", "none", d, vals, mb, mr), f"mc-treeimpl-{out.prop}", workers=8, timeout=3000, coverage=False)
+        require_mc_ok(res, f"TreeImpl.tla depth {d}")
+        states += res["distinct"]
+        out.notes.append(f"TLC TreeImpl.tla depth {d} Vals={vals} MaxBatch={mb} MaxRem={mr}: the transcribed full (dense array) and optimal "
+                         f"(sparse map) update algorithms refine TreeOps - Consistent, MarkOK, ResultOK hold in {res['distinct']} distinct states "
+                         f"({res['generated']} transitions)")
+    for variant in ("stale-right-half", "first-plus-count"):
+        res = tlc_mc("TreeImpl", cfg(f"MC_TreeImpl_{variant}", variant, 2, [0, 1], 2, 1), f"mc-treeimpl-{out.prop}-neg", workers=2, timeout=900, coverage=False)
+        if "Invariant Consistent is violated" not in res["out"]:
+            raise ToolError(f"TreeImpl.tla: the faulty re-hash pass '{variant}' was not refuted (vacuous refinement check)")
+    out.notes.append("TreeImpl.tla: the two faulty re-hash passes (defect repaired by fix 108de92; seeded change C07-m3) are refuted by TLC")
+    return states
 
 
 def gen_edges(wd, name, depth, vals, max_batch, max_rem, ops):
